@@ -265,7 +265,11 @@ def _kill_by_path(path):
             cmd = open("/proc/%s/cmdline" % pid, "rb").read().decode("utf-8", "replace")
         except OSError:
             continue
-        if path in cmd:
+        try:
+            cwd = os.readlink("/proc/%s/cwd" % pid)
+        except OSError:
+            cwd = ""
+        if path in cmd or cwd.startswith(path):
             try:
                 os.kill(int(pid), 9)
             except OSError:
